@@ -377,6 +377,44 @@ def norm_resp(r):
 
 
 # ------------------------------------------------------------------ generators
+# Name CONTENT that a text-processing step would rewrite (a file name is carried as the UTF-8 octets of exactly the
+# str it was given as; nothing may normalise it): sequences that are not stable under Unicode normalisation
+# (NFC composes base letter + combining mark, Hangul jamo, and replaces singletons / CJK compatibility ideographs;
+# NFD decomposes precomposed letters and syllables; NFKC / NFKD additionally fold ligatures, fullwidth forms, no-break
+# and ideographic spaces, superscripts), under case mapping, under removal of ignorable characters, and spellings
+# path normalisation would collapse.
+NORM_UNITS = [list(x.encode()) for x in (
+    "e\u0301", "u\u0308", "A\u030a", "o\u0302\u0323", "a\u0323\u0301", "a\u0301\u0323", "\u0301",
+    "\u212b", "\u2126", "\u212a", "\u0340", "\u0374", "\u1f71",
+    "\uf900", "\uf9ff", "\ufa10", "\ufa30", "\ufad9", "\U0002f800",
+    "\u1100\u1161", "\u1112\u1161\u11ab", "\uac00\u11a8",
+    "\u00e9", "\u00c5", "\u1e69", "\uac00", "\ud7a3", "\u0958",
+    "\ufb01", "\uff21", "\uff0f", "\uff61", "\u00a0", "\u3000", "\u00b2", "\u2460", "\u2024", "\u00bd", "\u3392",
+    "\u0130", "\u00df", "\u1e9e", "\u03c2", "\u01c5",
+    "\u00ad", "\u200b", "\u200d", "\u200e", "\u2060", "\ufe0f")]
+PATH_UNITS = [list(x.encode()) for x in ("//", "/./", "/../", "./", "../", "\\", "C:\\", " ", "\t", ".", "..", "~", "%2F", "%20", "a/", "\r\n")]
+NAME_UNITS = NORM_UNITS + NORM_UNITS + PATH_UNITS
+
+
+def rname(rng, n, ascii_only=False):
+    """valid UTF-8 of exactly n octets; about every third name holds one to three of the units above (at the start, in
+    the middle, at the end)"""
+    if n < 1 or rng.random() < 0.65:
+        return h8.rname(rng, n, ascii_only)
+    units, room = [], n
+    for _ in range(rng.choice([1, 1, 2, 3])):
+        u = rng.choice(PATH_UNITS if ascii_only else NAME_UNITS)
+        if len(u) <= room:
+            units.append(u); room -= len(u)
+    if not units:
+        return h8.rname(rng, n, ascii_only)
+    cuts = sorted(rng.choice([0, room, rng.randrange(room + 1)]) for _ in units)
+    out, prev = [], 0
+    for c, u in zip(cuts, units):
+        out += h8.rname(rng, c - prev, ascii_only) + u; prev = c
+    return out + h8.rname(rng, room - prev, ascii_only)
+
+
 def _rand_conf(rng, sl=None, ql=None, crc=None, large=None):
     sl = sl or rng.choice(WIDTHS); ql = ql or rng.choice(WIDTHS)
     ids = [rng.randrange(256 ** sl), sl, rng.randrange(256 ** sl), sl, rng.randrange(256 ** ql), ql]
@@ -389,8 +427,8 @@ def _rand_conf(rng, sl=None, ql=None, crc=None, large=None):
 def _rand_resp(rng, small=False):
     action = rng.randrange(9)
     status = h8.rstatus(rng, action)
-    first = h8.rname(rng, rng.choice([0, 1, 3, 8] if small else [0, 1, 2, 5, 9, 30]))
-    second = h8.rname(rng, rng.choice([0, 2, 6])) if (action in TWO or rng.random() < 0.2) else []
+    first = rname(rng, rng.choice([0, 1, 3, 8] if small else [0, 1, 2, 5, 9, 30]))
+    second = rname(rng, rng.choice([0, 2, 6])) if (action in TWO or rng.random() < 0.2) else []
     msg = h8.rbytes(rng, rng.choice([0, 0, 1, 4] if small else [0, 0, 1, 4, 17]))
     return [action, status, len(first), len(second)] + first + second + msg
 
@@ -418,7 +456,7 @@ def _rand_name(rng, none_ok=True):
         return [0]
     if r < 0.3:
         return [1]
-    return [1] + h8.rname(rng, rng.choice([1, 2, 3, 7, 12, 24]))
+    return [1] + rname(rng, rng.choice([1, 2, 3, 7, 12, 24]))
 
 
 def _rand_fsize(rng, large):
@@ -566,7 +604,10 @@ def streams(tier, rng):
     yield "lists_0_to_5", "exact", cases
     # 6. names: None, empty, ASCII, 2/3/4-octet sequences, 254/255/256 octets; oversize TLV values and response fields
     cases = []
-    names = [[0], [1]] + [[1] + c for c in h8.CH] + [[1] + h8.rname(rng, n) for n in (63, 64, 127, 128, 254, 255, 256, 300)]
+    names = [[0], [1]] + [[1] + c for c in h8.CH] + [[1] + rname(rng, n) for n in (63, 64, 127, 128, 254, 255, 256, 300)]
+    names += [[1] + u for u in NORM_UNITS + PATH_UNITS]                  # every unit alone, ...
+    names += [[1] + rname(rng, rng.randrange(0, 9), True) + u + rname(rng, rng.randrange(0, 9), True) for u in NORM_UNITS]    # ... inside ASCII, ...
+    names += [[1] + (lambda u: rname(rng, 255 - len(u)) + u)(rng.choice(NORM_UNITS)) for _ in range(4)]    # ... and ending a name of 255 octets
     for nm in names:
         ids, flags = _rand_conf(rng)
         other = _rand_name(rng)
@@ -580,7 +621,7 @@ def streams(tier, rng):
         a = [ids, flags, [4, 0, 1], [1] + h8.rbytes(rng, n), [0]]
         cases.append((1341, a)); cases.append((1340, a)); cases.append((1344, a + [[]]))
         for l1, lm in ((n - 6, 0), (5, n - 8), (n - 4, 0), (3, n - 5)):
-            r = [0, 0, l1, 0] + h8.rname(rng, l1, True) + h8.rbytes(rng, lm)
+            r = [0, 0, l1, 0] + rname(rng, l1, True) + h8.rbytes(rng, lm)
             a = [ids, flags, [4, 0, 1], [0], [1], r]
             cases.append((1341, a)); cases.append((1340, a)); cases.append((1344, a + [[]]))
     # responses whose status code does not belong to the action code / is INVALID; TLV types outside the enum as options
@@ -613,8 +654,8 @@ def streams(tier, rng):
     #     ~1300; names ending in a 4-octet UTF-8 sequence; 0x80 / 0xFF octets in TLV values)
     def _nm(n):
         if n >= 4 and rng.random() < 0.5:
-            return h8.rname(rng, n - 4) + rng.choice([c for c in h8.CH if len(c) == 4])
-        return h8.rname(rng, n)
+            return rname(rng, n - 4) + rng.choice([c for c in h8.CH if len(c) == 4])
+        return rname(rng, n)
     def _val(n):
         return [rng.choice([0x00, 0x80, 0xFF, rng.randrange(256)]) for _ in range(n)]
     cases = []
@@ -781,9 +822,28 @@ def streams(tier, rng):
             elif k in (2, 4):
                 ops.append([k])
             else:
-                ops.append([k] + h8.rname(rng, rng.choice([0, 1, 5, 20, 255, 256])))
+                ops.append([k] + rname(rng, rng.choice([0, 1, 5, 20, 255, 256])))
         cases.append((1355, b + ops))
     yield "setter_histories", "exact", cases
+    # PDUs whose (correct) CRC-16 trailer is 0x0000 / 0xFFFF / has a zero octet / a single bit (a derived quantity random
+    # packets hit once in 65536; found by steering the sequence number, c05.steer_crc): decode, re-pack, round trip
+    cases = []
+    for sl, ql in (itertools.product(WIDTHS, WIDTHS) if big else [(1, 1), (1, 2), (2, 1), (2, 4), (4, 8), (8, 8)]):
+        for target in h5.crc_targets(rng):
+            for gen, ok, layf, base, tail in ((_rand_fin, valid_fin, fin_lay, 1340, lambda a: 5 + _fin_n(a)), (_rand_md, valid_md, md_lay, 1350, lambda a: 6 + _md_n(a))):
+                for _ in range(50):
+                    a = gen(rng, small=True, sl=sl, ql=ql, crc=1)
+                    if ok(a):
+                        break
+                b2 = h5.steer_crc(layf(a), target)
+                a2 = [list(x) for x in a]; a2[0] = h5.ids_of(b2)
+                if layf(a2) != b2:
+                    raise RuntimeError("steered PDU is not the layout of its arguments")
+                cases.append((base + 2, [b2])); cases.append((base + 3, [b2])); cases.append((base + 4, a2 + [[]])); cases.append((base + 1, a2))
+                cases.append((base + 2, [b2 + [rng.randrange(256) for _ in range(rng.choice([1, 3]))]]))
+                q = list(b2); q[-1 - rng.randrange(2)] ^= 1 << rng.randrange(8)
+                cases.append((base + 2, [q]))
+    yield "crc_trailer_special_values", "exact", cases
     # 11. garbage: random octets biased to file-directive headers with valid widths, consistent lengths, right CRC
     cases = []
     for _ in range(24000 if big else 3000):
